@@ -45,7 +45,31 @@ THEOREMS = [
     "C12.xmax_meets_spec",
     "C12.xextreme_unique",
     "C12.parseDur_truncates",
+    # round 4 (Theorems2.lean): sums as folds in the code's order, StdDev / percentiles over abstract floats,
+    # the stream operators of operators.rs, moving average, statistics, field extraction
+    "C12.xsum_meets_spec",
+    "C12.sum_is_fold",
+    "C12.record_sum_is_fold",
+    "C12.stddev_is_fold",
+    "C12.stddev_oracle_is_variance",
+    "C12.percentile_picks_sorted_index",
+    "C12.percentile_index_meets_spec",
+    "C12.keyBy_partition",
+    "C12.keyed_windowed_per_key",
+    "C12.keyed_windowed_stream_partition",
+    "C12.keyed_windowed_stream_sliding",
+    "C12.windowed_aggregate_is_fold",
+    "C12.reduce_is_fold",
+    "C12.kw_model_meets_spec",
+    "C12.alpha_statistics_exact",
+    "C12.moving_average_is_fold",
+    "C12.detect_anomalies_exact",
+    "C12.calculate_trend_exact",
+    "C12.ms_model_meets_spec",
+    "C12.window_statistics_exact",
+    "C12.field_extraction_exact",
 ]
+LEAN_TARGETS = ["RreModel.C12.Theorems", "RreModel.C12.Theorems2"]
 N = {"quick": 4000, "thorough": 60000}
 EXHAUSTIVE = {"quick": False, "thorough": False}
 RULE = ("cases = corpus (defect witnesses + corner cases) + for every timestamp sequence of length <=4 over 0..3 "
@@ -80,7 +104,22 @@ RULE = ("cases = corpus (defect witnesses + corner cases) + for every timestamp 
         "windows (1..12 events filled by record or add_event) whose Number fields range over all of f64 (infinities, NaN, +-f64::MAX next "
         "to integers / non-numeric / missing): min and max through TimeWindow, Aggregator and operators::{Min,Max} against xMinOk/xMaxOk "
         "(None iff no numeric value; NaN iff all NaN; else a non-NaN member bounding all non-NaN members) and the fold model xMin/xMax; "
-        "the sum where it does not depend on the order of addition (no NaN, no +-f64::MAX).")
+        "the sum ALWAYS (round 4): compared with the closed form where the order of addition does not matter and with the fold in the order "
+        "of the deque where it does (NaN, +-f64::MAX; + max(40,N/40) cases `xv-order`: runs of +-f64::MAX between small integers). "
+        "Round 4: for every timestamp sequence of length <=4 over 0..3 three `KW` cases (two keys; tumbling / sliding / binding cap) + max(96,N/8) "
+        "random `KW` cases: DataStream::from_events/new+push/len/is_empty/count/aggregate/reduce/key_by/group_by/window, KeyedStream::"
+        "count/keys/aggregate/reduce/flatten/window, KeyedWindowedStream::aggregate/reduce, GroupedStream::aggregate/count/first/last, "
+        "WindowedStream::aggregate/reduce/flatten on <=12 events with 1..10 keys (key 0 = no key field, key 9 = a key field that is not a "
+        "string: StreamEvent::get_string), tumbling / sliding / session configuration, caps 0..100, durations in ms and micros; the aggregator "
+        "is a CustomAggregator reporting the ids it was handed and the answers of the real Count/Sum/Average/Min/Max on them, the reducer "
+        "appends ids (kwOk); + max(48,N/16) `ST`: the VALUE of StdDev as f64 bits and 1..6 percentiles k/10 with k any integer (ties of the rank, "
+        "above 100 %, negative) of one window of 0..40 events (stOk: exact integer arithmetic); + max(48,N/16) `MS`: a WindowManager of any type "
+        "after <=12 events: total_event_count, latest_window, get_statistics, aggregate_across_windows, StreamAnalytics::moving_average over the "
+        "last 0,1,2,3,100 windows (msOk); + max(48,N/16) `TS`: TimeWindow::latest_timestamp / events_in_range / duration_ms / clear after a run of "
+        "add_event / record (tsOk); + max(32,N/32) `AS`: StreamAlphaNode::event_count / window_stats / clear after a run under the injected clock "
+        "(asOk); + max(48,N/16) `SA`: StreamAnalytics::detect_anomalies (thresholds -0.5..3.0) and calculate_trend over 0..6 hand-built windows "
+        "of 0..30 events (equal values, outliers, windows without numeric value; anomaliesOk / trendOk in exact integer / rational arithmetic, "
+        "exact ties accepted either way); + 24 `EV`: get_numeric / get_string / get_boolean of a field of every Value class (evOk).")
 TRUSTED = [
     "Lean 4.33 kernel; axioms of every property theorem within {propext, Classical.choice, Quot.sound} (audited each run)",
     "hand-written model RreModel/C12/Model.lean tied to src/streaming/window.rs, operators.rs, aggregator.rs, event.rs and "
@@ -90,9 +129,16 @@ TRUSTED = [
     "off the function reads the system clock as before",
     "the sliding/session WindowedStream::new call runs in a child process of the harness binary (same code, RRE_C12_INPROC) "
     "so that a non-returning constructor can be killed at a deadline (800 ms; 120 ms after 6 hangs in one run)",
-    "not modelled: the VALUE of StdDev (only when it is defined), percentiles other than 0/25/50/75/100 (their index goes through "
-    "an inexact f64 product), Aggregator::aggregate_events for the non-basic types (answers None by design), StreamAnalytics, "
-    "KeyedWindowedStream, WindowedStream::aggregate/reduce/flatten (only windows()/counts() are observed)",
+    "round 4: floats are a parameter of the model (FOps / FCmp: zero, add, sub, mul, div, sqrt, abs, comparisons); the driver instantiates "
+    "them with Lean's Float (IEEE double: +, -, *, /, sqrt, round, abs correctly rounded as in Rust; f64::powi(2) = x*x; the saturating "
+    "`as usize` cast = Float.toUSize) and only bit patterns / integers cross the wire; that instance is trusted, the declarative oracles "
+    "stdOk / pctOkQ / anomaliesOk / trendOk are evaluated in exact integer arithmetic on the implementation's answers independently of it",
+    "round 4: the reducer / aggregator / key selector handed to the generic stream operators are the harness's (id-appending reducer, "
+    "id-reporting CustomAggregator around the real Count/Sum/Average/Min/Max, get_string(\"k\") key selector); the model treats a reduce "
+    "on the carrier `trace of events` (parametricity of the generic code in the closure is assumed)",
+    "not modelled: Aggregator::aggregate_events for the non-basic types (answers None by design), StreamAnalytics::aggregate_cached (a TTL "
+    "cache, no windowing), DataStream filter/map/flat_map/take/skip/union/sort_by/find/any/all (no windowing, no aggregate), "
+    "TimeWindow::events_by_type, WindowManager::windows_with_event_type, StreamEvent::matches_pattern/age_ms",
 ]
 ASSUMPTIONS = [
     "timestamps/durations are u64 milliseconds modelled as Nat (saturating_sub = Nat subtraction); no u64 overflow",
@@ -102,7 +148,18 @@ ASSUMPTIONS = [
     "f64::min/max return the other operand when one is NaN); any NaN prints as `z`; operators::Min/Max are not observed when a NaN is "
     "present (they compare with partial_cmp().unwrap()), the sum is not observed when a NaN or +-f64::MAX is present (order dependent); "
     "xmin_meets_spec/xmax_meets_spec prove that the fold model xMin/xMax satisfies the declarative oracle xMinOk/xMaxOk for every value "
-    "list and xextreme_unique that the oracle admits no other answer; the sum over XNum (xSum) has no theorem (correspondence check only)",
+    "list and xextreme_unique that the oracle admits no other answer; the sum over XNum is modelled as the fold the code performs "
+    "(xSumFold: IEEE addition on the value classes, MAX + small integer = MAX) and xsum_meets_spec proves it equal to the closed form "
+    "xSum for every list without NaN / +-f64::MAX; with these values the sum depends on the order and the oracle clause is the fold",
+    "round 4, StdDev: stddev_is_fold proves the formula and its fold order over abstract float operations; that the f64 instance meets "
+    "stdOk (answer^2 = exact population variance up to 2^-20) is checked on every case, not proved (stddev_oracle_is_variance proves that "
+    "the oracle's integer expression IS the scaled sum of squared deviations). Percentiles: percentile_index_meets_spec proves pctOkQ from "
+    "the premise that the f64 index is within 1/2 of k/1000*(n-1) — that premise is the float part. detect_anomalies / calculate_trend: "
+    "*_exact prove structure and fold order; the comparisons are float parameters, decided exactly by the oracles (ties either way; a first "
+    "half of >= 2 window averages cancelling to exactly 0 is left undecided)",
+    "round 4, tumbling windows of a (keyed) WindowedStream come out of a HashMap: their aggregates / reduces are compared as sorted "
+    "multisets of canonical strings, flatten as a sorted id list; keyed maps are listed by ascending key; KW cases use sliding/session "
+    "durations >= 2 ms (the <= 1 ms constructor is exercised by the WS cases under a deadline)",
     "durations cross the wire as `<ms>` or `u<micros>`; the driver hands DurArg.ms to the model (micros/1000), proved equal to "
     "Duration::as_millis() of Duration::from_millis / from_micros as std defines them (parseDur_truncates; Dur mirrors secs + subsec nanos); "
     "TimeWindow::new with start + duration > u64::MAX (an overflowing add in the code) is not generated: unbounded windows start at 0",
@@ -136,11 +193,18 @@ LEVEL_TEXT = ("Lean 4 theorems (kernel-checked, unbounded: every duration/cap/li
               "fix-C12c, no hypothesis on duration/cap/events; termination by the positive step, ws_grid_length), ws_sliding_old_diverges "
               "(F-C12c: the pre-fix loop guard holds after any number of iterations when d <= 1 ms), alpha_session_model_meets_spec/"
               "_invariant/_step (StreamAlphaNode session windows under any clock); aggregates2_meet_spec/_are_exact (First, Last, "
-              "CountDistinct, CountBy, Percentile as order statistic); tied to the Rust code by a "
+              "CountDistinct, CountBy, Percentile as order statistic); round 4 (Theorems2.lean, 21 theorems): xsum_meets_spec (the sum folded "
+              "in the code's order = the closed-form oracle), sum_is_fold / record_sum_is_fold / stddev_is_fold / detect_anomalies_exact / "
+              "calculate_trend_exact over abstract float operations, percentile_picks_sorted_index + percentile_index_meets_spec (any percentile), "
+              "keyBy_partition, keyed_windowed_per_key (+ definedness), keyed_windowed_stream_partition / _sliding (per-key instances of the "
+              "single-stream theorems), windowed_aggregate_is_fold, reduce_is_fold, kw_model_meets_spec (every clause of kwOk for all the stream "
+              "operators, any key function / configuration / event list), moving_average_is_fold, ms_model_meets_spec, window_statistics_exact, "
+              "alpha_statistics_exact, field_extraction_exact, stddev_oracle_is_variance; tied to the Rust code by a "
               "correspondence check (exhaustive short sequences + random longer ones, every public entry point, observations after every call) "
               "and by evaluating the same Spec predicates on the implementation's observations.")
 LEVEL_NOTE = ("Trusted: Lean kernel + {propext, Classical.choice, Quot.sound}; hand-written model tied to the code by differential testing only; "
               "harness/driver glue; clock hook. Sliding/session WindowManager and session StreamAlphaNode are specified as coded (first fit; "
-              "last-arrived timestamp) — see ASSUMPTIONS. The value of StdDev, percentiles other than 0/25/50/75/100, StreamAnalytics, "
-              "KeyedWindowedStream are outside the model.")
+              "last-arrived timestamp) — see ASSUMPTIONS. Floats are a parameter of the model; that IEEE arithmetic meets the exact oracles "
+              "for StdDev / percentile index / z-score / trend is checked per case, not proved. StreamAnalytics::aggregate_cached and the "
+              "non-windowing DataStream combinators are outside the model.")
 DESIGN_REF = "§6 C12"
